@@ -260,7 +260,7 @@ SvFileOp ==
        /\ IF si = Len(SaveOps)
             THEN EndSave(TRUE)
             ELSE si' = si + 1 /\ spc' = spc /\ cc' = cc
-       /\ act' = [n |-> "SvFileOp", o |-> o]
+       /\ act' = [n |-> "SvFileOp", f |-> o]
     /\ UNCHANGED <<cache, ulm, live, queue, wsrc, final, cancelled, pc, op, rd, failed, crashed, mutated, nops, nedits>>
 
 \* a write fails half-way (disk full, RLIMIT_FSIZE): the target keeps a prefix, the save returns the error
